@@ -97,6 +97,7 @@ PROPS['C11'] = {
     'theorems': [
         thm('EmmetProps.C11_consistent', 'every line, every position (also out of range), every option set: a result satisfies start <= location <= end <= len(line), abbreviation = line[location:end], and does not begin with > + ^ *; independent of the is_html heuristic'),
         thm('EmmetProps.C11_end', 'all inputs: end = the position clamped to the line and moved by look-ahead across at most one quote and then closing brackets'),
+        thm('EmmetProps.C11_roundtrip', 'round trip for bracket-free abbreviations: a run of abbreviation characters not beginning with an operator, at the start of the line or after a blank, with no `<` to its left, is returned exactly (abbreviation, location, start, end) for the caret at its end, both syntax types, look-ahead on or off', partial=True),
         thm('EmmetProps.C11_prefix', 'all inputs with a prefix: the prefix is the text at start and the abbreviation lies to its right'),
     ],
     'domains': ['dom_extract'],
